@@ -699,6 +699,22 @@ func LongInput(n int) string {
 	return b.String()
 }
 
+// sub / gsub with an explicit target: the target becomes a string (the result
+// of the substitution), also when nothing was substituted
+var subTargetPrograms = []string{
+	`BEGIN { v = 5; n = sub(/x/, "y", v); print n, (v < 10), (v == 5), v "", length(v) }`,
+	`BEGIN { v = 5; n = gsub(/x/, "y", v); print n, (v < 10), (v < "10") }`,
+	`BEGIN { n = sub(/x/, "y", u); print n, (u == 0), (u == ""), length(u) }`,
+	`BEGIN { n = gsub(/x/, "y", u); print n, (u == 0), (u == "") }`,
+	`BEGIN { a[1] = 12; n = sub(/x/, "y", a[1]); print n, (a[1] < 5), (a[1] < "5") }`,
+	`BEGIN { CONVFMT = "%.2g"; w = 0.123456; n = gsub(/x/, "y", w); print n, w * 10, w }`,
+	`BEGIN { CONVFMT = "%.2g"; w = 0.123456; n = sub(/1/, "7", w); print n, w * 10, w }`,
+	`function f(p) { sub(/x/, "y", p); return (p < 10) (p == 5) } BEGIN { print f(5), f("5"), f(50) }`,
+	`{ v = $1; n = sub(/x/, "y", v); print n, (v < 9), (v == $1) } END { NR = NR; sub(/x/, "y", NR); print (NR < 10) }`,
+	`{ n = sub(/x/, "y", $2); print n, ($2 < 9), NF; n = gsub(/[0-9]/, "#", $1); print n, $1, $0 }`,
+	`BEGIN { v = 10; n = sub(/1/, "2", v); print n, (v < 5), v + 1 }`,
+}
+
 var longPrograms = []string{
 	`function f() { next } { n++; f(); m++ } END { print n, m, NR }`,
 	`function f() { if (NR % 2) next; return 1 } { n += f() } END { print n, NR }`,
@@ -751,6 +767,12 @@ var longPrograms = []string{
 // LongPrograms returns the long-run programs (C11 runs those that do main-loop bookkeeping).
 func LongPrograms() []string { return longPrograms }
 
+func EnumSubTarget(thorough bool, f func(Case)) {
+	for i, src := range subTargetPrograms {
+		f(Case{Family: "subtarget", Name: fmt.Sprintf("s%d", i), Src: src + "\n"})
+	}
+}
+
 func EnumLong(thorough bool, f func(Case)) {
 	for i, src := range longPrograms {
 		f(Case{Family: "longrun", Name: fmt.Sprintf("l%d", i), Src: src + "\n"})
@@ -768,6 +790,7 @@ func EnumC01(thorough bool, f func(Case)) {
 	EnumBoolValue(thorough, f)
 	EnumSelfAssign(thorough, f)
 	EnumEmptyBody(thorough, f)
+	EnumSubTarget(thorough, f)
 	EnumLong(thorough, f)
 	EnumConcat(thorough, f)
 	EnumPairs(thorough, f)
